@@ -770,7 +770,7 @@ impl Puppet {
 
     fn inject_invalid(&mut self) {
         let r = self.round_upper.max(self.node_round_estimate());
-        let kinds: Vec<u32> = if self.cfg.only_mutations.is_empty() { (0..33).collect() } else { self.cfg.only_mutations.clone() };
+        let kinds: Vec<u32> = if self.cfg.only_mutations.is_empty() { (0..36).collect() } else { self.cfg.only_mutations.clone() };
         let kind = kinds[self.r.below(kinds.len())];
         let leader = self.members.leader_index(r);
         let ps = self.puppets();
@@ -1061,6 +1061,55 @@ impl Puppet {
                 if tip_d != Digest::default() || kind == 32 {
                     let pl = vec![];
                     bad_block = Some(self.mk_block(author, r, q, tc, pl));
+                }
+            }
+            33 | 34 | 35 => {
+                // Padded certificates: a genuine quorum of entries FOLLOWED by one more entry that
+                // is invalid (non-member, repeated signer, or a member's name over a garbage
+                // signature). A verifier that stops looking once the quorum is reached lets the
+                // padding through, and the padding is not inert: a TC's high-QC rounds are read
+                // from every entry, and the certificate is stored, relayed and re-proposed.
+                let signers = self.quorum_of_puppets();
+                let flavour = self.r.below(3);
+                let (opk, osk) = keypair(self.c.sc.seed, 800 + self.step);
+                let fl_txt = ["a trailing non-member entry", "a trailing repeated signer", "a trailing entry naming a member over a garbage signature"][flavour];
+                if kind == 33 {
+                    let fr = r + 3;
+                    let fh = ident::bytes_digest(&self.r.next().to_le_bytes());
+                    let mut fq = self.mk_qc(&fh, fr, &signers);
+                    let extra = match flavour {
+                        0 => (opk, sign(&ident::vote_digest(&fh, fr), &osk)),
+                        1 => fq.votes[0].clone(),
+                        _ => (self.members.names[self.real], sign(&ident::vote_digest(&fh, fr), &osk)),
+                    };
+                    fq.votes.push(extra);
+                    let fl = self.members.leader_index(fr + 1);
+                    let fa = if fl == self.real { some_puppet } else { fl };
+                    what = format!("block whose QC (future round) has a genuine quorum plus {}", fl_txt);
+                    bad_block = Some(self.mk_block(fa, fr + 1, fq, None, vec![]));
+                } else {
+                    let target = if kind == 34 { r + 2 } else { r.max(2) - 1 };
+                    let highs: Vec<Round> = signers.iter().map(|_| 0).collect();
+                    let mut tc = self.mk_tc(target, &signers, &highs);
+                    let inflated: Round = target + 1000;
+                    let extra = match flavour {
+                        0 => (opk, sign(&ident::timeout_digest(target, inflated), &osk), inflated),
+                        1 => {
+                            let first = signers[0];
+                            let t = self.mk_timeout(first, target, QC::genesis());
+                            (t.author, t.signature, 0)
+                        }
+                        _ => (self.members.names[self.real], sign(&ident::timeout_digest(target, inflated), &osk), inflated),
+                    };
+                    tc.votes.push(extra);
+                    if kind == 34 {
+                        what = format!("TC (future round) with a genuine quorum plus {}", fl_txt);
+                        bad_other = Some((signers[0], ConsensusMessage::TC(tc)));
+                    } else if r > 1 {
+                        what = format!("block whose TC has a genuine quorum plus {}", fl_txt);
+                        let pl = vec![ident::bytes_digest(&self.r.next().to_le_bytes())];
+                        bad_block = Some(self.mk_block(author, r, QC::genesis(), Some(tc), pl));
+                    }
                 }
             }
             28 | 29 | 30 => {
